@@ -1265,6 +1265,9 @@ func (c *control) dirR(colon, at bool, params []any) {
 			teen = ordinalTeen
 		}
 		i := len(digits) - 1
+		// The words are collected from the least significant on, only the
+		// first of them is an ordinal.
+		ordinal := false
 		for _, trip := range cardinalTriples {
 			if 0 < len(trip) {
 				words = append(words, trip)
@@ -1273,7 +1276,10 @@ func (c *control) dirR(colon, at bool, params []any) {
 			d := digits[i]
 			i--
 			if i < 0 {
-				words = append(words, one[d-'0'])
+				if d != '0' {
+					ordinal = ordinal || (colon && len(words) == 0)
+					words = append(words, one[d-'0'])
+				}
 				break
 			}
 			d10 := digits[i]
@@ -1282,14 +1288,20 @@ func (c *control) dirR(colon, at bool, params []any) {
 			case '0':
 				if d != '0' {
 					zero = false
+					ordinal = ordinal || (colon && len(words) == 0)
 					words = append(words, one[d-'0'])
 				}
 			case '1':
 				zero = false
+				ordinal = ordinal || (colon && len(words) == 0)
 				words = append(words, teen[d-'0'])
 			default:
 				zero = false
-				words = append(words, one[d-'0'])
+				if d != '0' {
+					// twenty, not twenty followed by an empty word
+					ordinal = ordinal || (colon && len(words) == 0)
+					words = append(words, one[d-'0'])
+				}
 				words = append(words, cardinalTen[d10-'0'-2])
 			}
 			one = cardinalOne
@@ -1308,6 +1320,15 @@ func (c *control) dirR(colon, at bool, params []any) {
 			}
 			if i < 0 {
 				break
+			}
+		}
+		if colon && !ordinal && 0 < len(words) {
+			// A round number, the last word is a ten, hundred or a power
+			// of a thousand: twentieth, hundredth, millionth.
+			if w := words[0]; w[len(w)-1] == 'y' {
+				words[0] = w[:len(w)-1] + "ieth"
+			} else {
+				words[0] = w + "th"
 			}
 		}
 		if neg {
